@@ -887,7 +887,7 @@ def rw_renumber(p: Proto) -> bool:
     for m in _all_msgs(p.defs):
         order = sorted(m.fields, key=lambda f: f.number)
         for r, f in enumerate(order):
-            nn = 3 * r + 2
+            nn = 3 * r + 2 if r < len(order) - 1 or len(order) < 2 else 255  # the last field gets the largest legal number
             if nn != f.number:
                 ch = True
             f.number = nn
@@ -941,7 +941,7 @@ STYLE_B = Style(semi=True, indent="  ", blank_between=2, comments=True, trailing
 
 
 def rw_bases() -> List[Case]:
-    keep = ("nest0", "nest5", "nested_decl", "arr_msg", "arr_nd", "arr_bytes", "ext3", "ext7", "extalias", "perm1", "perm9", "empty", "wide3", "sarr9", "sarr24", "drone", "enum3", "enum9", "batch16_5", "extarr4")
+    keep = ("arr_alias_odd", "uarr_odd", "nest0", "nest5", "nested_decl", "arr_msg", "arr_nd", "arr_bytes", "ext3", "ext7", "extalias", "perm1", "perm9", "empty", "wide3", "sarr9", "sarr24", "drone", "enum3", "enum9", "batch16_5", "extarr4")
     bases = [c for c in f_shape_core() if c.name in keep]
     # bases with a file-level and a nested definition of different widths (for rename_shadow)
     kind = _e("Kind", 3, [0, 1, 5])
